@@ -43,4 +43,7 @@ Definition wf_case (c : case) : bool :=
       forallb (fun t => let '(st, tr, sched, ex, an) := t in
                         in_range 0 4 st && h32 sched && h32 ex && oin h32 an) pre &&
       match pre with (_, _, s0, _, _) :: _ => s0 <=? served | [] => true end
+  | Rebuild _ iv cap nu63 funding tip pend ws ds _ =>
+      nz32 iv && nz32 cap && h32 nu63 && h32 funding && h32 tip && forallb h32 pend && words ws && forallb h32 ds &&
+      (length ws =? length ds)%nat
   end.
